@@ -26,6 +26,9 @@ USER = [
     ['unit', 'V', 'v1000', ['scaled', 'i:1000', 'x0/y0']],
     ['type', 'N', None, None],
     ['unit', 'N', 'n1', ['none']], ['unit', 'N', 'n2', ['none']],
+    ['unit', 'N', 'n1alias', ['scaled', 'i:1', 'n1']],
+    ['unit', 'N', 'n1k', ['scaled', 'i:1000', 'n1']],
+    ['unit', 'N', 'n1k2', ['term', [['i:10', 1], ['n1', 1], ['i:100', 1]]]],
     ['dtype', 'NB', [['N', 1], ['B1', -1]], None, None],
     ['unit', 'NB', 'n1/x0', ['derive', ['n1', 'x0']]],
     ['unit', 'NB', 'n2/x0', ['derive', ['n2', 'x0']]],
